@@ -24,3 +24,30 @@ def zonesOp (args : List String) : String :=
     | .error e => s!"err {e.tag}"
   | none => "bad-op"
 end OP.Drive
+
+namespace OP.Drive
+open OP
+
+/-- `treezones <root hex> | <tree path>… | <label> <name hex> | …` →
+    `ok <zone or ? per stream>… | <tree paths>… | <streams of each tree path>` -/
+def treezonesOp (args : List String) : String :=
+  match splitGroups args with
+  | [r] :: ps :: streams =>
+    let root? := if r = "-" then some "" else (decHex r.toList).map String.ofList
+    match root?, ps.mapM decPath, streams.mapM (fun g => match g with
+        | [l, n] => match decPath l, (if n = "-" then some "" else (decHex n.toList).map String.ofList) with
+          | some l, some n => some (l, n)
+          | _, _ => none
+        | _ => none) with
+    | some root, some paths, some ss =>
+      match rewriteAll root ss { paths := paths } with
+      | .ok st =>
+        let zs := st.zones.map fun z => z.getD []
+        let fuel := (st.paths.map List.length).foldl max 0 + 2
+        "ok " ++ " ".intercalate (st.zones.map fun z => match z with | some p => encPath p | none => "?")
+          ++ " | " ++ " ".intercalate (st.paths.map encPath)
+          ++ " | " ++ " ".intercalate (st.paths.map fun z => ",".intercalate ((content st.paths zs fuel z).map toString))
+      | .error e => s!"err {e.tag}"
+    | _, _, _ => "bad-op"
+  | _ => "bad-op"
+end OP.Drive
